@@ -290,7 +290,7 @@ class IsolationOracle(Oracle):
         now = {u: (r["parent"], r["type_uid"], r["kind"]) for u, r in model.recs.items()}
         created = set(now) - set(pre)
         removed = set(pre) - set(now)
-        ok_op = outcome == "ok"
+        ok_op = outcome == "ok" or outcome.startswith("partial:")      # (a removal refused part-way has removed part of its subtree)
         touch: set[str] = set()
         parents: set[str] = set()
         if ok_op:
